@@ -103,6 +103,10 @@ func (t *ParserTerm) preCheck(ctx *Context) bool {
 			t.Symbol = ast.Rule
 		case *TokenRule:
 			t.Symbol = ast.Terminal
+		case *ExternalName:
+			// Tokens declared with @external are produced by the user's own
+			// lexer; the parser refers to them like to any other token.
+			t.Symbol = ast.Terminal
 		default:
 			ctx.Errs.Errorf(ctx.Position(t), "%v is not a parser or token rule", t.Name)
 			return false
